@@ -221,18 +221,37 @@ func c08(c *Ctx) {
 	}
 	if fn := c.Fn(loadawarePkg, "Plugin", "filterNodeUsage"); fn != nil {
 		r.Rule("PATH: in filterNodeUsage, after the comparison usage <= threshold[i] evaluated to false only an Unschedulable status is returned; usage derives from estimatedUsed[i] and allocatable[i] with the same index as the threshold")
+		// the comparison of the rounded usage percentage with the threshold, in any of its equivalent spellings:
+		// usage <= t (exceeds when false), usage > t (exceeds when true), t >= usage, t < usage
 		var cmp *ssa.BinOp
+		exceeds := an.False
+		isUsage := func(v ssa.Value) bool {
+			for x := range backwardAll(v) {
+				if call, ok := x.(*ssa.Call); ok && an.ShortCallee(&call.Call) == "Round" {
+					return true
+				}
+			}
+			return false
+		}
 		for _, b := range fn.Blocks {
 			for _, in := range b.Instrs {
-				if bo, ok := in.(*ssa.BinOp); ok && bo.Op.String() == "<=" {
-					cmp = bo
+				bo, ok := in.(*ssa.BinOp)
+				if !ok {
+					continue
+				}
+				ux, uy := isUsage(bo.X), isUsage(bo.Y)
+				switch {
+				case ux && !uy && bo.Op == token.LEQ, uy && !ux && bo.Op == token.GEQ:
+					cmp, exceeds = bo, an.False
+				case ux && !uy && bo.Op == token.GTR, uy && !ux && bo.Op == token.LSS:
+					cmp, exceeds = bo, an.True
 				}
 			}
 		}
 		if cmp == nil {
 			r.Fail("PATH", fkey(fn)+"/exceed=>reject", c.Pos(fn.Pos()), "comparison usage <= threshold not found")
 		} else {
-			reach := an.Explore(fn, an.After(cmp), an.Facts{cmp: an.False}, nil)
+			reach := an.Explore(fn, an.After(cmp), an.Facts{cmp: exceeds}, nil)
 			bad := false
 			nret := 0
 			for _, ret := range reach.Returns() {
@@ -246,6 +265,9 @@ func c08(c *Ctx) {
 			}
 			r.Check(!bad && nret >= 1, "PATH", fkey(fn)+"/exceed=>reject", c.InstrPos(cmp), "an exceeded threshold always rejects the node", "after usage > threshold a return other than Unschedulable is reachable")
 			pu, pv := an.Path(cmp.X), an.Path(cmp.Y)
+			if !isUsage(cmp.X) { // mirrored spelling: the threshold stands on the left
+				pu, pv = pv, pu
+			}
 			ok := strings.Contains(pu, "estimatedUsed[") && strings.Contains(pu, "allocatable[") && strings.Contains(pv, "usageThresholds")
 			r.Check(ok, "FLOW", fkey(fn)+"/operands", c.InstrPos(cmp), "usage(estimated/allocatable) is compared with the threshold of the same resource", "comparison operands changed: "+pu+" <= "+pv)
 		}
